@@ -17,7 +17,8 @@ def programs(level):
     if level == "quick":
         keep = ("var|type=int|", "var|type=bool|access=name", "var|type=list|access=from", "var|type=dict|access=name", "var|type=odict|access=name",
                 "var|type=ppath|access=name", "var|type=float|access=name", "var|type=str|access=name", "var|type=tuple|access=name",
-                "var|type=none_int|access=name", "var|type=nested|access=name", "body|", "arg|", "ext|", "struct|", "untracked", "twice_rt")
+                "var|type=none_int|access=name", "var|type=nested|access=name", "var|type=relpath|access=name", "var|type=date|access=name",
+                "var|type=cfunc|access=from", "var|type=dict_order|access=name", "body|", "arg|", "ext|", "struct|", "untracked", "twice_rt")
         units = [sp for sp in units if sp["key"].startswith(keep) and (not sp["key"].startswith("var|") or sp["id"].endswith(("/direct", "/helper2", "/stmt/from", "/method")) or "ctx=" in sp["key"])]
     from ..checks import c09
     loads = [c09.make_spec(pl, pr) for pl in c09.PLACEMENTS for pr in ("datafn", "keepcall")]
